@@ -71,18 +71,18 @@ Section Proofs.
                      pl_offset l + pl_size l <= sc_data_offset m + data_length m) (sc_locs m).
 
   (** What is claimed of a copied column in an output file [out]. *)
-  Definition placed_ok (src : list B) (m : src_chunk) (out : list B) (p : placed B) : Prop :=
-    let delta := p_data_page_offset B p - sc_data_offset m in
+  Definition placed_ok (src : list B) (m : src_chunk) (out : list B) (p : placed) : Prop :=
+    let delta := p_data_page_offset p - sc_data_offset m in
     (* the offset index is the source's, shifted *)
-    p_locs B p = map (rebase delta) (sc_locs m) /\
+    p_locs p = map (rebase delta) (sc_locs m) /\
     (* every location designates the bytes of the same page *)
     Forall (fun l => pl_offset l + delta + pl_size l <= Z.of_nat (length out) /\
                      slice (pl_offset l + delta) (pl_size l) out = slice (pl_offset l) (pl_size l) src)
            (sc_locs m) /\
     (* the dictionary page, when there is one, is where the metadata says, directly before the data pages *)
     (sc_dict_offset m <> 0 -> sc_dict_offset m < sc_data_offset m ->
-       p_dict_page_offset B p + (sc_data_offset m - sc_dict_offset m) = p_data_page_offset B p /\
-       slice (p_dict_page_offset B p) (sc_data_offset m - sc_dict_offset m) out
+       p_dict_page_offset p + (sc_data_offset m - sc_dict_offset m) = p_data_page_offset p /\
+       slice (p_dict_page_offset p) (sc_data_offset m - sc_dict_offset m) out
        = slice (sc_dict_offset m) (sc_data_offset m - sc_dict_offset m) src).
 
   Lemma map_rebase_rebase d1 d2 (ls : list page_loc) :
@@ -142,8 +142,8 @@ Section Proofs.
     split; [|split].
     - rewrite map_rebase_rebase. f_equal. f_equal. lia.
     - rewrite Forall_forall in H6 |- *. intros l Hin. destruct (H6 l Hin) as (L1 & L2 & L3).
-      assert (Hd : 0 < data_length m \/ pl_size l = 0) by lia.
-      destruct Hd as [Hd|Hd].
+      assert (Hd : 0 < data_length m \/ (pl_size l = 0 /\ pl_offset l = sc_data_offset m)) by lia.
+      destruct Hd as [Hd|[Hd Hd']].
       + unfold out2. replace (Z.ltb 0 (data_length m)) with true by (symmetry; now apply Z.ltb_lt).
         split.
         * rewrite app_length, slice_length by lia. lia.
@@ -176,8 +176,8 @@ Section Proofs.
 
   (* what holds of a column in an output still holds after more bytes are appended *)
   Lemma placed_ok_extend src m out p ext :
-    Forall (fun l => 0 <= pl_size l /\ 0 <= pl_offset l + (p_data_page_offset B p - sc_data_offset m)) (sc_locs m) ->
-    0 <= p_dict_page_offset B p -> p_data_page_offset B p <= Z.of_nat (length out) ->
+    Forall (fun l => 0 <= pl_size l /\ 0 <= pl_offset l + (p_data_page_offset p - sc_data_offset m)) (sc_locs m) ->
+    0 <= p_dict_page_offset p -> p_data_page_offset p <= Z.of_nat (length out) ->
     placed_ok src m out p -> placed_ok src m (out ++ ext) p.
   Proof.
     intros Hpos Hd0 Hdp (P1 & P2 & P3). unfold placed_ok. split; [exact P1|]. split.
@@ -210,7 +210,7 @@ Section Proofs.
       split; [exists (e1 ++ e2); subst; now rewrite app_assoc|].
       constructor; [|exact Hps]. cbn [fst snd]. subst out2.
       (* the first column's claims survive the later appends *)
-      assert (Hdpo : p_data_page_offset B p <= Z.of_nat (length out1) /\ 0 <= p_dict_page_offset B p).
+      assert (Hdpo : p_data_page_offset p <= Z.of_nat (length out1) /\ 0 <= p_dict_page_offset p).
       { unfold splice_chunk in E1. inversion E1; subst; cbn.
         destruct (Z.ltb 0 (cc_data_length cc)); [rewrite app_length|];
           destruct (Z.ltb 0 (cc_dict_length cc)); lia. }
@@ -220,7 +220,7 @@ Section Proofs.
       destruct Hv as (H1 & H2 & H3 & H4 & H5 & H6).
       rewrite Forall_forall in H6 |- *. intros l Hin. destruct (H6 l Hin) as (L1 & L2 & L3).
       split; [exact L2|].
-      assert (0 <= p_data_page_offset B p).
+      assert (0 <= p_data_page_offset p).
       { unfold splice_chunk in E1. inversion E1; subst; cbn. lia. }
       lia.
   Qed.
@@ -232,7 +232,7 @@ Lemma rebased_offsets_spec (B : Type) (src out : list B) m cc :
   valid_layout B src m -> load_copied_chunk m = Some cc ->
   rebased_offsets m (Z.of_nat (length out)) =
   let p := snd (splice_chunk src out cc) in
-  Some (p_dict_page_offset B p, p_data_page_offset B p, map pl_offset (p_locs B p)).
+  Some (p_dict_page_offset p, p_data_page_offset p, map pl_offset (p_locs p)).
 Proof.
   intros Hv Hl. unfold rebased_offsets. rewrite Hl.
   destruct (load_copied_chunk_valid B src m Hv) as (cc' & Hl' & C1 & C2 & C3 & C4 & C5).
@@ -242,10 +242,12 @@ Proof.
   assert (Hlen : Z.ltb 0 (cc_dict_length cc) = true ->
                  Z.of_nat (length (out ++ slice (cc_dict_offset cc) (cc_dict_length cc) src))
                  = Z.of_nat (length out) + cc_dict_length cc).
-  { intro E. apply Z.ltb_lt in E. rewrite app_length, slice_length; try lia.
-    - rewrite C4. lia.
-    - rewrite C4, C5 in *. unfold data_length in *.
+  { intro E. apply Z.ltb_lt in E.
+    assert (Q1 : 0 <= cc_dict_offset cc) by (rewrite C4; lia).
+    assert (Q2 : cc_dict_offset cc + cc_dict_length cc <= Z.of_nat (length src)).
+    { rewrite C4. rewrite C5 in E |- *. unfold data_length in *.
       destruct (Z.eqb (sc_dict_offset m) 0) eqn:E0; [lia|]. apply Z.eqb_neq in E0. specialize (H3 E0). lia. }
+    rewrite app_length, slice_length by lia. lia. }
   destruct (Z.ltb 0 (cc_dict_length cc)) eqn:E.
   - rewrite (Hlen eq_refl). rewrite map_map. reflexivity.
   - rewrite map_map. reflexivity.
